@@ -974,6 +974,14 @@ class Interp:
                 return self.val(st, FloatV("div"))
             if isinstance(op, (ast.LShift,)) and bi.is_const() and 0 <= bi.const <= 64:
                 return self.val(st, IntV(ai * (2 ** int(bi.const))))
+            if isinstance(op, (ast.BitOr, ast.BitAnd, ast.BitXor)) and ai.is_const() and bi.is_const():
+                x, y = int(ai.const), int(bi.const)
+                return self.val(st, IntV(x | y if isinstance(op, ast.BitOr) else (x & y if isinstance(op, ast.BitAnd)
+                                                                                  else x ^ y)))
+            if isinstance(op, (ast.BitOr, ast.BitAnd)) and (ai.is_const() or bi.is_const()):
+                x, c = (bi, int(ai.const)) if ai.is_const() else (ai, int(bi.const))
+                if c >= 0:
+                    return self.bit_op(op, x, c, st, node)
         if isinstance(a, (FloatV, OpaqueV)) or isinstance(b, (FloatV, OpaqueV)):
             return self.val(st, FloatV("arith") if isinstance(a, FloatV) or isinstance(b, FloatV)
                             else OpaqueV("arith"))
@@ -988,6 +996,50 @@ class Interp:
         for sa in sorted(a.symbols()):
             for sb in sorted(b.symbols()):
                 st.lemmas(sa, sb)
+
+    def bit_op(self, op, x: LinExpr, c: int, st: State, node) -> list[Out]:
+        """x | c and x & c for a non-negative constant c, exact where the bits cannot interact, otherwise bounded:
+        for x >= 0:  max(x, c) <= x | c <= x + c   and   0 <= x & c <= min(x, c)."""
+        res = []
+        if isinstance(op, ast.BitOr):
+            k = (c & -c).bit_length() - 1 if c else 0  # number of trailing zero bits of c
+            s1 = st.clone()
+            if c and s1.add(ge(x, 0)) and s1.add(le(x, 2 ** k - 1)):
+                res.extend(self.val(s1, IntV(x + c)))  # disjoint bits: or == add
+            s2 = st.clone()
+            if s2.add(ge(x, 2 ** k if c else 0)):
+                w = s2.new_sym("bitor", f"({x!r}) | {c:#x}")
+                s2.add(ge(w, x))
+                s2.add(ge(w, c))
+                s2.add(le(w, x + c))
+                s2.events.append(("bitor-overlap", self.where(node), x, c))
+                res.extend(self.val(s2, IntV(w)))
+            s3 = st.clone()
+            if s3.add(le(x, -1)):
+                self.unsupported(node, "bitwise or of a possibly negative value")
+            return res
+        # BitAnd
+        full = c.bit_length() and c == 2 ** c.bit_length() - 1
+        s1 = st.clone()
+        if full and s1.add(ge(x, 0)) and s1.add(le(x, c)):
+            res.extend(self.val(s1, IntV(x)))
+        s2 = st.clone()
+        out_of = [gt(x, c)] if full else [ge(x, 0)]
+        if s2.add(out_of[0]):
+            w = s2.new_sym("bitand", f"({x!r}) & {c:#x}")
+            s2.add(ge(w, 0))
+            s2.add(le(w, c))
+            s2.add(le(w, x))
+            s2.events.append(("bitand-wrap", self.where(node), x, c))
+            res.extend(self.val(s2, IntV(w)))
+        s3 = st.clone()
+        if s3.add(le(x, -1)):
+            w = s3.new_sym("bitand", f"({x!r}) & {c:#x}")
+            s3.add(ge(w, 0))
+            s3.add(le(w, c))
+            s3.events.append(("bitand-wrap", self.where(node), x, c))
+            res.extend(self.val(s3, IntV(w)))
+        return res
 
     def e_Attribute(self, e, st):
         return self.bind(self.eval(e.value, st), lambda v, s: self.getattr(v, e.attr, s, e))
